@@ -7,7 +7,11 @@
 (*           what was observed: the URLs found in the produced HTML        *)
 (*           (mapped back to <<class, kind, which>>), the list they were   *)
 (*           in, the answer of the endpoint for each of them, and for      *)
-(*           `get` the answer to an arbitrary request.                     *)
+(*           `get` the answer to an arbitrary request; `seturl` activates  *)
+(*           another URL configuration (script prefix / URLconf); every    *)
+(*           emitted URL comes with the configuration its path is          *)
+(*           addressed to (loc), every request with the one it is built    *)
+(*           for (req.at); all requests are made under the active one.     *)
 (* Every event must be explained by the ScriptEndpoint action of the same  *)
 (* name; the observation must be one the specification admits.  An event   *)
 (* explained only by a *named deviation* is reported as DEV (a finding     *)
@@ -19,7 +23,7 @@ EXTENDS ScriptEndpoint, TLC, Json, IOUtils
 Traces == ndJsonDeserialize(IOEnv.IN)
 
 VARIABLES tid, l
-trVars == <<conf, cache, ver, held, kept, emitted, resp, tid, l>>
+trVars == <<conf, cache, ver, held, kept, emitted, resp, url, eloc, tid, l>>
 
 Events == Traces[tid].events
 Ev == Events[l]
@@ -30,6 +34,7 @@ TrInit == /\ tid = 1 /\ l = 1
 
 NextTrace == /\ tid' = tid + 1 /\ l' = 1
              /\ cache' = {} /\ held' = {} /\ kept' = {} /\ emitted' = {} /\ resp' = NoResp
+             /\ url' = DefaultUrl /\ eloc' = DefaultUrl
              /\ IF tid + 1 <= Len(Traces)
                 THEN conf' = ConfOf(tid + 1) /\ ver' = [c \in 1..Len(ConfOf(tid + 1)) |-> 1]
                 ELSE conf' = <<>> /\ ver' = <<>>
@@ -49,9 +54,13 @@ IsStale(en, o) == /\ en[3] = "main" /\ KeptVer(en) # 0 /\ KeptVer(en) < ver[en[1
 
 (* ---- render / finish: clauses against the cache the action must establish *)
 EmitFailing(e, post) ==
-  {c \in {"render_error", "emitted_set", "channel", "emitted_served", "content_type", "malformed"} :
+  {c \in {"render_error", "emitted_set", "channel", "emitted_served", "content_type", "malformed",
+          "emitted_location"} :
      CASE c = "render_error"   -> e.err
-       [] c = "malformed"      -> Len(e.fetch) # Len(e.emitted) \/ Len(e.chan) # Len(e.emitted)
+       [] c = "malformed"      -> (Len(e.fetch) # Len(e.emitted) \/ Len(e.chan) # Len(e.emitted)
+                                    \/ Len(e.loc) # Len(e.emitted))
+       \* the URLs are addressed to the configuration that is active at this render
+       [] c = "emitted_location" -> \E j \in 1..Len(e.loc) : e.loc[j] # url
        [] c = "emitted_set"    -> Range(e.emitted) # Need(conf, Page(e))
        [] c = "channel"        -> \E j \in 1..Len(e.chan) : e.chan[j] # Chan(e.mode)
        [] c = "emitted_served" -> \E j \in 1..Len(e.emitted) : j <= Len(e.fetch) /\
@@ -97,21 +106,21 @@ HandleFinish(e) ==
        ELSE IF FinishDevMatches(e)
        THEN /\ Dev(DevFinish)
             /\ emitted' = Need(conf, Page(e)) /\ resp' = NoResp
-            /\ UNCHANGED <<conf, cache, ver, held, kept>> /\ Continue
+            /\ UNCHANGED <<conf, cache, ver, held, kept>> /\ UrlKeep /\ Continue
        ELSE IF StaleOnly(e, post) THEN Dev(DevStale) /\ FinishOk(Page(e), e.mode) /\ Continue
        ELSE Reject(bad)
 
 HandleGet(e) ==
   LET r == e.req
       bad == {c \in {"answer", "content_type"} :
-                CASE c = "answer" -> O(e.out) \notin Adm(conf, cache, ver, r)
+                CASE c = "answer" -> O(e.out) \notin AdmAt(conf, cache, ver, url, r)
                   [] c = "content_type" -> CtBad(e.out)}
-      same == resp' = O(e.out) /\ UNCHANGED <<conf, cache, ver, held, kept, emitted>> /\ Continue IN
+      same == resp' = O(e.out) /\ UNCHANGED <<conf, cache, ver, held, kept, emitted>> /\ UrlKeep /\ Continue IN
   IF bad = {} THEN same
-  ELSE IF /\ r.m = "GET" /\ Exists(conf, r) /\ r.i = "none" /\ EntryOf(r) \in cache
+  ELSE IF /\ r.at = url /\ r.m = "GET" /\ Exists(conf, r) /\ r.i = "none" /\ EntryOf(r) \in cache
           /\ IsStale(EntryOf(r), e.out) /\ ~CtBad(e.out)
   THEN Dev(DevStale) /\ same
-  ELSE IF /\ r.m = "GET" /\ r.c \in 1..Len(conf) /\ r.k \in {"js:vars", "css:vars"} /\ r.i = "none"
+  ELSE IF /\ r.at = url /\ r.m = "GET" /\ r.c \in 1..Len(conf) /\ r.k \in {"js:vars", "css:vars"} /\ r.i = "none"
           /\ KeptVer(<<r.c, IF r.k = "js:vars" THEN "js" ELSE "css", "vars">>) # 0
           /\ e.out.st = 500
   THEN Dev(DevKind) /\ same
@@ -125,6 +134,7 @@ Step ==
        [] Ev.op = "clear"     -> ClearCache /\ Continue
        [] Ev.op = "redefine"  -> Redefine(Ev.c) /\ Continue
        [] Ev.op = "get"       -> HandleGet(Ev)
+       [] Ev.op = "seturl"    -> SetUrl(Ev.u) /\ Continue
 
 Done == /\ tid <= Len(Traces) /\ l > Len(Events)
         /\ PrintT(<<"ACCEPT", Traces[tid].id>>)
